@@ -273,8 +273,8 @@ func (an *Analyzer) analyzeFunc(fn *ssa.Function, f *Frame, in *State, final boo
 					}
 					seenKey[k] = true
 				}
-				if dup {
-					np = an.groupJoin(np, fmt.Sprintf("%s:b%d@%p:regroup", f.key, succ.Index, succ))
+				if dup && os.Getenv("VERIF_OBL_NOREGROUP") == "" {
+					np = an.groupJoin(np, fmt.Sprintf("%s:b%d@%p", f.key, succ.Index, succ))
 				}
 			}
 			if !sameParts(sin.parts, np) {
